@@ -163,8 +163,20 @@ class MediaQuery(cssutils.util._NewBase):  # cssutils.util.Base):
 
         # parse
         ok, seq, store, unused = ProdParser().parse(mediaText, 'MediaQuery', prods)
-        self._wellformed = ok
         if ok:
+            # the value of a feature must be well-formed as well
+            for item in seq:
+                if getattr(item.value, 'wellformed', True) is False:
+                    ok = False
+                    self._log.error(
+                        'MediaQuery: Syntax error in value of a media feature.',
+                        error=xml.dom.SyntaxErr,
+                    )
+        if ok:
+            # (a rejected text leaves the query as it was)
+            self._wellformed = True
+            # a simple media type is set below, anything else has none
+            self._mediaType = ''
             try:
                 media_type = store['media_type']
             except KeyError:
@@ -205,20 +217,31 @@ class MediaQuery(cssutils.util._NewBase):  # cssutils.util.Base):
                 error=xml.dom.SyntaxErr,
             )
         else:
-            # set
-            self._mediaType = mediaType
-
-            # update seq
+            # update seq: the media type is the IDENT after ONLY|NOT and in
+            # front of the first expression
+            simple = True
             for i, x in enumerate(self._seq):
                 if isinstance(x.value, str):
-                    if normalize(x.value) in ('only', 'not'):
+                    if x.type == 'IDENT' and normalize(x.value) in ('only', 'not'):
+                        simple = False
                         continue
-                    else:
-                        # TODO: simplify!
+                    elif x.type == 'IDENT':
                         self._seq[i] = (mediaType, 'IDENT', None, None)
+                        simple = simple and not any(
+                            isinstance(y.value, str) for y in self._seq[i + 1 :]
+                        )
+                        break
+                    else:
+                        # an expression comes first: "type and (...)"
+                        self._seq.insert(i, 'and', 'IDENT')
+                        self._seq.insert(i, mediaType, 'IDENT')
+                        simple = False
                         break
             else:
                 self._seq.insert(0, mediaType, 'IDENT')
+
+            # set (only a simple query reports a media type)
+            self._mediaType = mediaType if simple else ''
 
     mediaType = property(
         lambda self: self._mediaType,
